@@ -7,6 +7,16 @@ Open Scope N_scope.
 (** the term language of the harness *)
 Definition vN : value := VNone.
 Definition vI (n : N) : value := VInt (Z.of_N n).
+Definition vTrue : value := VBool true.
+Definition vFalse : value := VBool false.
+(** floats: fH n = n/2, fHn n = -n/2 *)
+Definition fH (n : N) : flt := FHalf (Z.of_N n).
+Definition fHn (n : N) : flt := FHalf (- Z.of_N n).
+Definition fNaN : flt := FNaN.
+Definition fPInf : flt := FPosInf.
+Definition fNInf : flt := FNegInf.
+Definition fNZ : flt := FNegZero.
+Definition vF : flt -> value := VFloat.
 Definition vS : str -> value := VStr.
 Definition vB : str -> value := VBytes.
 Definition vT : list value -> value := VTuple.
@@ -53,7 +63,14 @@ Definition list_eqb {T} (eqb : T -> T -> bool) : list T -> list T -> bool :=
 Fixpoint value_eqb (a b : value) : bool :=
   match a, b with
   | VNone, VNone => true
+  | VBool x, VBool y => Bool.eqb x y
   | VInt x, VInt y => Z.eqb x y
+  | VFloat x, VFloat y =>
+      match x, y with
+      | FNaN, FNaN | FPosInf, FPosInf | FNegInf, FNegInf | FNegZero, FNegZero => true
+      | FHalf a, FHalf b => Z.eqb a b
+      | _, _ => false
+      end
   | VStr x, VStr y => str_eqb x y
   | VBytes x, VBytes y => str_eqb x y
   | VTuple x, VTuple y => list_eqb value_eqb x y
